@@ -52,6 +52,17 @@ func litStores(al ssa.Value) map[string][]ssa.Value {
 					p = prefix + "." + name
 				}
 				walk(x, p)
+			case *ssa.IndexAddr:
+				if x.X != addr {
+					continue
+				}
+				if k, ok := x.Index.(*ssa.Const); ok {
+					pp := fmt.Sprintf("[%s]", k.Value.String())
+					if prefix != "" {
+						pp = prefix + pp
+					}
+					walk(x, pp)
+				}
 			case *ssa.Store:
 				if x.Addr == addr && prefix != "" {
 					// nested composite literals are built in their own local and copied whole
